@@ -8,6 +8,7 @@ import (
 	"os"
 	"path/filepath"
 	"sort"
+	"strings"
 	"sync/atomic"
 
 	"github.com/meshplus/bitxhub-kit/crypto"
@@ -122,6 +123,18 @@ var scratchRoot = func() string {
 	base := "/dev/shm"
 	if _, err := os.Stat(base); err != nil {
 		base = os.TempDir()
+	}
+	// scratch directories of processes that no longer exist (killed runs) are removed
+	if old, err := filepath.Glob(filepath.Join(base, "verif-*")); err == nil {
+		for _, o := range old {
+			var pid int
+			if _, err := fmt.Sscanf(filepath.Base(o), "verif-%d", &pid); err == nil && pid > 0 {
+				comm, err := ioutil.ReadFile(fmt.Sprintf("/proc/%d/comm", pid))
+				if err != nil || strings.TrimSpace(string(comm)) != "verif" {
+					_ = os.RemoveAll(o)
+				}
+			}
+		}
 	}
 	d := filepath.Join(base, fmt.Sprintf("verif-%d", os.Getpid()))
 	_ = os.RemoveAll(d)
